@@ -12,7 +12,11 @@ impl<'a> Iter<'a> {
     pub(super) fn new(bases: &'a [u8], start: usize, end: usize) -> Self {
         let i = start / 2;
         let j = end.div_ceil(2);
-        let mut iter = bases[i..j].iter();
+        let mut iter = if start < end {
+            bases[i..j].iter()
+        } else {
+            [].iter()
+        };
 
         let front = if start.is_multiple_of(2) {
             None
@@ -20,13 +24,11 @@ impl<'a> Iter<'a> {
             iter.next().map(|&n| discard_front_decoded_bases(n))
         };
 
-        let base_count = end - start;
-
-        // This assumes `bases.len() * 2` is only ever `base_count` or `base_count` + 1.
-        let back = if bases.len() * 2 > base_count {
-            iter.next_back().map(|&n| discard_back_decoded_bases(n))
-        } else {
+        // The last byte of a range that ends on an odd index holds a single base of the range.
+        let back = if end.is_multiple_of(2) {
             None
+        } else {
+            iter.next_back().map(|&n| discard_back_decoded_bases(n))
         };
 
         Self { iter, front, back }
